@@ -123,6 +123,22 @@ func c01Selection(c *core.C, v *wsView) (input string, paths, excludes []string,
 	}
 	sort.Strings(cands)
 	kind = "all"
+	// pairs of candidates where one is a string prefix, but not a path-wise ancestor, of the other
+	var sib [][2]string
+	for _, a := range cands {
+		for _, b := range cands {
+			if a != b && strings.HasPrefix(b, a) && !model.ContainsPath(a, b) {
+				sib = append(sib, [2]string{a, b})
+			}
+		}
+	}
+	if len(sib) > 0 && c.Rand.IntN(3) == 0 {
+		pr := sib[c.Rand.IntN(len(sib))]
+		if c.Rand.IntN(2) == 0 {
+			return input, []string{pr[0], pr[1]}, nil, "prefix-siblings"
+		}
+		return input, []string{pr[1]}, []string{pr[0]}, "prefix-siblings-excl"
+	}
 	switch c.Rand.IntN(4) {
 	case 1:
 		kind = "paths"
